@@ -100,8 +100,9 @@ struct Fault {
     int nth = 0;                            // n-th call of that kind within the operation (0-based)
     int err = 0;                            // errno to fail with (0 for the special actions)
     int special = 0;                        // 1 short (count/2, at least 1), 2 early EOF
-    J to_json() const { J j = J::obj(); j.set("kind", kind); j.set("nth", nth); j.set("err", err); j.set("special", special); return j; }
-    static Fault from_json(const J &j) { Fault f; f.kind = j.gets("kind"); f.nth = (int)j.geti("nth"); f.err = (int)j.geti("err"); f.special = (int)j.geti("special"); return f; }
+    bool sticky = false;                    // the condition persists: every call of that kind from the nth on fails (a dead disk stays dead, a directory stays a directory)
+    J to_json() const { J j = J::obj(); j.set("kind", kind); j.set("nth", nth); j.set("err", err); j.set("special", special); if (sticky) j.set("sticky", true); return j; }
+    static Fault from_json(const J &j) { Fault f; f.kind = j.gets("kind"); f.nth = (int)j.geti("nth"); f.err = (int)j.geti("err"); f.special = (int)j.geti("special"); f.sticky = j.getb("sticky"); return f; }
 };
 
 struct ExecOp {
@@ -112,6 +113,7 @@ struct ExecOp {
     bool argv0_null_hidden = false;         // argv[0]==NULL but further strings follow in memory
     bool success = false;                   // simulated real exec succeeds (process image replaced)
     int ret = -1, err = 2;                  // otherwise: value returned and errno set by the real exec
+    int forks_before = 0;                   // Batch: the calling thread forks this many times (child: one wrapped call, reported) before it makes the call
     int entry_errno = 0;                    // errno of the calling thread when it makes the call (whatever its last libc call left there)
     std::vector<Fault> faults;
     J to_json() const;
